@@ -23,6 +23,26 @@ SEEDS = {
  "C10-m2": ("top-p filtering by a cut-off threshold instead of scatter", "tied logits across the nucleus boundary"),
  "C12-m1": ("DecodingStrategy._select_best returns the state of rollout 0", "select_best with num_starts > 1 and a reward read from the final state (mTSP, FLP, MCP)"),
  "C12-m2": ("PrecomputedCache.batchify uses repeat_interleave", "dynamic decoder embedding (SDVRP), num_starts > 1, batch size > 1"),
+ "C09-m1": ("TSPkoptEnv._step keeps a stale visited_time on the step_to_solution path", "k_max > 2, step_to_solution(rec_best) while the current tour differs, then a further sampled move"),
+ "C09-m2": ("PDPRuinRepairEnv._local_operator reinserts the pickup before the delivery", "a mask-admitted move with first == second"),
+ "C11-m1": ("PrecomputedCache.batchify uses repeat_interleave (instance-major copies)", "dynamic decoder embedding (SDVRP / L2D), num_starts > 1, batch size > 1"),
+ "C11-m2": ("process_logits takes the log-softmax before the top-k / top-p filters (no renormalisation)", "top_k > 0 or 0 < top_p < 1 and a step where the filter removes a feasible action"),
+ "C13-m1": ("BeamSearch._make_beam_step flattens the kept scores instance-major", "beam search with batch size >= 2"),
+ "C13-m2": ("ConstructivePolicy.forward forces temperature 1.0 for 'deterministic' decode types incl. beam search", "policy constructed with temperature != 1 and beam_search without a temperature kwarg"),
+ "C14-m1": ("PrecomputedCache.batchify uses repeat_interleave (instance-major copies)", "multistart decoding of SDVRP (dynamic embedding) with batch size >= 2"),
+ "C14-m2": ("OPEnv.get_action_mask no longer masks everything once back at the depot", "batch whose rows finish at different steps"),
+ "C15-m1": ("StateAugmentation.__call__ stops passing num_augment to the augmentation function", "symmetric augmentation with num_augment < 8"),
+ "C15-m2": ("AugmentationEval._inner selects the best actions by flat index b*A+a", "data-loader batch > 1 with num_augment > 1 and someone recomputing the objective of the returned actions"),
+ "C16-m1": ("PPO.shared_step drops the pessimistic min of the clipped surrogate", "a mini-batch after the first optimiser step with a ratio outside the clip range on the pessimistic side"),
+ "C16-m2": ("WarmupBaseline.eval mixes the baseline values with torch.lerp (weights swapped)", "warm-up with n_epochs >= 3, 0 < alpha < 1, alpha != 0.5"),
+ "C17-m1": ("ExtraKeyDataset.__getitem__ attaches the extra value only on first access", "the same base dataset wrapped again with new values after items were read"),
+ "C17-m2": ("RolloutBaseline.rollout fills a pre-allocated buffer at offset i * len(chunk)", "len(dataset) % eval batch size != 0 with batch size < len(dataset)"),
+ "C18-m1": ("ATSPGenerator._generate stops the Floyd-Warshall pivots at the first pivot that changes nothing", "tmat_class generation with batch size 1 or 2"),
+ "C18-m2": ("MTVRPGenerator.generate_time_windows divides by (d_0i * speed)", "speed < 1 on a closed-route time-window preset"),
+ "C19-m1": ("CVRPEnv.load_data normalises every instance by the first instance's capacity", "npz file whose instances have different capacities"),
+ "C19-m2": ("REINFORCE.load_from_checkpoint strips every 'baseline.' prefix and loads the baseline non-strictly", "nested (warm-up + rollout) baseline whose policy differs from the acting policy at checkpoint time"),
+ "C20-m1": ("RewardScaler.update counts rows before flattening the batch", "a 2-D observed tensor (multi-start advantages) with reward_scale norm/scale"),
+ "C20-m2": ("ExponentialBaseline.eval re-initialises when the stored value is falsy", "running value exactly 0 when eval is entered and beta > 0"),
 }
 for sid in sorted(os.listdir(os.path.join(ROOT, "seeded"))):
     d = os.path.join(ROOT, "seeded", sid)
